@@ -434,41 +434,53 @@ func (c *Ctx) valueTaken(target *ssa.Function) bool {
 	return false
 }
 
-// ownedBy: is the function named n an allowed owner, or a new helper reached only from allowed owners?
-func (c *Ctx) ownedBy(n string, allowed map[string]string, depth int) (string, bool) {
-	if why, ok := allowed[n]; ok {
-		return why, true
+// ownersOf: the allowed owners in whose dynamic extent the function named n
+// runs — n itself when it is in the table, else (for a helper absent from the
+// reference inventory whose value is never taken) the owners of all its callers.
+func (c *Ctx) ownersOf(n string, allowed map[string]string, depth int) ([]string, bool) {
+	if _, ok := allowed[n]; ok {
+		return []string{n}, true
 	}
 	if depth <= 0 || baselineFuncs == nil || baselineFuncs[n] {
-		return "", false
+		return nil, false
 	}
 	f := c.funcByName(n)
 	if f == nil || f.Synthetic != "" || c.valueTaken(f) {
-		return "", false
+		return nil, false
 	}
 	v := c.view
 	c.view = ""
 	callers := c.callersOf(f)
 	c.view = v
-	if len(callers) == 0 {
-		return "", false
-	}
-	var via []string
+	var owners []string
 	for g := range callers {
 		gn := fname(topFunc(g))
 		if gn == n {
 			continue
 		}
-		if _, ok := c.ownedBy(gn, allowed, depth-1); !ok {
-			return "", false
+		o, ok := c.ownersOf(gn, allowed, depth-1)
+		if !ok {
+			return nil, false
 		}
-		via = append(via, gn)
+		owners = append(owners, o...)
 	}
-	if len(via) == 0 {
+	if len(owners) == 0 {
+		return nil, false
+	}
+	sort.Strings(owners)
+	return uniq(owners), true
+}
+
+// ownedBy: is the function named n an allowed owner, or a new helper reached only from allowed owners?
+func (c *Ctx) ownedBy(n string, allowed map[string]string, depth int) (string, bool) {
+	if why, ok := allowed[n]; ok {
+		return why, true
+	}
+	o, ok := c.ownersOf(n, allowed, depth)
+	if !ok {
 		return "", false
 	}
-	sort.Strings(via)
-	return "helper absent from the reference inventory, called only from " + strings.Join(uniq(via), ", "), true
+	return "helper absent from the reference inventory, called only from " + strings.Join(o, ", "), true
 }
 
 func uniq(s []string) []string {
